@@ -50,13 +50,52 @@ def xmlJoin : List Bytes → Bytes
   | [] => []
   | n :: ns => n ++ [10] ++ xmlJoin ns
 
-/-- `dataParse`: empty selector → the document itself; `$…` → JSON engine; `/…` → XML engine;
-anything else → `(nil, nil)`: an empty result. -/
+/-! ### the nesting guard (/repo 14409e8)
+
+`jsonDepthExceeds(rawMsg, maxDocumentDepth)` is repository code over the raw bytes and is transcribed
+here statement by statement (`Gen.DosnodeFlow.jsonDepthExceeds`, pinned by `c07_depth_guard_shape`).
+`xmlDepthExceeds` walks the tree `xmlquery.Parse` built – a third-party structure: its verdict is part
+of the XML engine parameter (`Engines.xml … = .err` for a tree deeper than the bound); the `depth`
+cases of the correspondence run check both at 1000 / 1001 levels. -/
+
+def maxDocumentDepth : Nat := 1000
+
+/-- the loop state of `jsonDepthExceeds`: `depth, inString, escaped`, and `over` = `return true` taken -/
+structure JScan where
+  depth : Nat
+  inString : Bool
+  escaped : Bool
+  over : Bool
+  deriving DecidableEq, Repr
+
+/-- one iteration of `for _, c := range b` -/
+def jsonScanStep (max : Nat) (s : JScan) (c : UInt8) : JScan :=
+  if s.over then s
+  else if s.inString then
+    if s.escaped then { s with escaped := false }
+    else if c = 0x5c then { s with escaped := true }
+    else if c = 0x22 then { s with inString := false }
+    else s
+  else if c = 0x22 then { s with inString := true }
+  else if c = 0x5b ∨ c = 0x7b then
+    if max < s.depth + 1 then { s with depth := s.depth + 1, over := true } else { s with depth := s.depth + 1 }
+  else if c = 0x5d ∨ c = 0x7d then { s with depth := s.depth - 1 }   -- `if depth > 0 { depth-- }`
+  else s
+
+def jsonDepthExceeds (b : Bytes) (max : Nat) : Bool :=
+  (b.foldl (jsonScanStep max) { depth := 0, inString := false, escaped := false, over := false }).over
+
+/-- the `$` branch of `dataParse`: the guard, then the JSON engine -/
+def jsonBranch (E : Engines) (doc sel : Bytes) : Parsed :=
+  if jsonDepthExceeds doc maxDocumentDepth then .err else E.json doc sel
+
+/-- `dataParse`: empty selector → the document itself; `$…` → nesting guard, JSON engine; `/…` → XML
+engine (its nesting guard included); anything else → `(nil, nil)`: an empty result. -/
 def dataParse (E : Engines) (doc sel : Bytes) : Parsed :=
   match sel with
   | [] => .ok doc
   | c :: _ =>
-    if c = 0x24 then E.json doc sel
+    if c = 0x24 then jsonBranch E doc sel
     else if c = 0x2f then
       match E.xml doc sel with
       | .nodes ns => .ok (xmlJoin ns)
@@ -100,7 +139,7 @@ def step (E : Engines) (e : Ev) : Ev :=
     | [] => { e with pc := .parsed e.req.doc }
     | c :: _ =>
       if c = 0x24 then
-        match E.json e.req.doc e.req.sel with
+        match jsonBranch E e.req.doc e.req.sel with
         | .ok p => { e with pc := .parsed p }
         | _ => { e with pc := .done none }
       else if c = 0x2f then
